@@ -224,7 +224,13 @@ func (c *c40Case) connGone(err error) {
 	}
 	c.dead = true
 	if !c.wantEnd && !c.mayEnd {
-		c.fail("unexpected-close", "the server closed the connection (%v) although every frame sent so far was legal", err)
+		key := "unexpected-close"
+		if c.negInc {
+			// the server ends the session 250 ms after queueing its GOAWAY; under load the close can
+			// overtake the GOAWAY frame, so the status is not always observable
+			key = "window-change-rejected-on-negative-window"
+		}
+		c.fail(key, "the server closed the connection (%v) although every frame sent so far was legal", err)
 	}
 }
 
